@@ -539,6 +539,7 @@ def reg_bit(f, i):
 class Instance:
     def __init__(self, unit, args=None):
         self.unit = unit
+        self.implicit_sp = False
         self.nsub = 1
         self.target = t = unit.target
         self.rv = is_rv(t)
@@ -611,9 +612,13 @@ class Instance:
         self.mnemonic = "rep movsb" if unit.cid == REP_MOVSB else isagen.mnemonic(class_of(t, unit.cid))
         if self.rv:
             self._scan_rv()
+            if self.implicit_sp:
+                sp = _reg_by_id(t, "RiscvRegister", "x2")
+                self.closure |= {id(q) for q in alias_of(t, sp)}
+                self.readmask[("g", 2)] = 0xFFFFFFFF
         else:
             self._scan_mem(self.args)
-        if unit.cid == REP_MOVSB:
+        if unit.cid in (REP_MOVSB, "Movsb"):
             self.addr_regs = {6, 7}
         self.nregs = len({(type(r).__name__, r.name) for r in self.reads + self.writes})
 
@@ -628,6 +633,10 @@ class Instance:
             d = rvstep.decode_code(self.code[pos:])
             if d is None:
                 raise Discard("the reference emulator cannot decode the encoding")
+            if d[5] == 2 and 2 in (d[1], d[2]) and '"x2"' not in repr(self.args).replace("'", '"'):
+                # compressed stack-pointer forms (c.lwsp, c.swsp, c.addi4spn, c.addi16sp): sp is not an
+                # operand of the instruction but documented implicit state
+                self.implicit_sp = True
             if d[0] in rvstep.CONTROL_OPS:
                 raise Discard("control transfer (excluded class)")
             if d[0] in rvstep.MEM_OPS:
@@ -661,7 +670,14 @@ class Instance:
                     self.mem = (self._gidx(sub[0][1]), None, sub[1])
                 elif n == "RmMemDisp2":
                     self.mem = (self._gidx(sub[0][1]), self._gidx(sub[1][1]), sub[2])
-                elif n in ("RmRip", "RmAbs", "RmAbsLabel"):
+                elif n == "RmAbs":
+                    if not (A + 256 <= sub[0] <= A + x86step.ARENA_SIZE - 256):
+                        self.unsupported_mem = n
+                elif n == "RmRip":
+                    ea = x86step.CODE_BASE + len(self.code) + sub[0]
+                    if not (A + 256 <= ea <= A + x86step.ARENA_SIZE - 256):
+                        self.unsupported_mem = n
+                elif n == "RmAbsLabel":
                     self.unsupported_mem = n
                 else:
                     self._scan_mem(sub)
@@ -727,9 +743,10 @@ def _shape_state(inst, st, rng):
             iv = rng.pick((0, 1, 8, rng.below(256), (-rng.below(64)) & M64))
             g[index] = iv
             g[base] = (A + t - disp - iv) & M64
-    if inst.unit.cid == REP_MOVSB:
+    if inst.unit.cid in (REP_MOVSB, "Movsb"):
         g[6] = A + 1024 + rng.below(2000)
         g[7] = A + 4096 + rng.below(2000) if rng.below(4) else g[6] + rng.below(40)
+    if inst.unit.cid == REP_MOVSB:
         g[1] = rng.below(48)
     if inst.mnemonic in ("div", "idiv") and inst.mem is None:
         _shape_division(inst, st, rng)
@@ -824,8 +841,8 @@ def _rm_register(inst):
     if inst.rv:
         return None
     for pos, a in enumerate(inst.args):
-        if isinstance(a, list) and a and a[0] == "c" and a[1].startswith("RmReg"):
-            cls = {"RmReg8": "Register8", "RmReg16": "Register16", "RmReg32": "Register32", "RmReg64": "Register64"}.get(a[1])
+        if isinstance(a, list) and a and a[0] == "c" and (a[1].startswith("RmReg") or a[1].startswith("RmXmmReg")):
+            cls = {"RmReg8": "Register8", "RmReg16": "Register16", "RmReg32": "Register32", "RmReg64": "Register64", "RmXmmReg": "XmmRegisterDouble", "RmXmmRegSingle": "XmmRegisterSingle"}.get(a[1])
             loc = x86step.REGTABLE.get((cls, a[2][0][1].split("#")[0]))
             if loc:
                 return "%s@%d" % (full_name(loc[0], loc[1]), pos)
@@ -1133,6 +1150,14 @@ def encoding_status(instances):
                         verdict = "ok"
                     elif diff[0] == "shape":
                         verdict = "unverifiable"
+                        if is_rv(target):
+                            # two-address compressed forms: ppci's classes take rd and rs1 separately but
+                            # encode one of them; an operand register that is not in the decoded text
+                            # is not part of the machine instruction
+                            mine = set(re.findall(r"\bx\d+\b", inst.text))
+                            theirs = set(re.findall(r"\bx\d+\b", " ".join(t for t, _ in d)))
+                            if not mine <= theirs:
+                                verdict = "mismatch: ppci prints `%s`, bytes %s decode as `%s` (operand register not encoded)" % (inst.text, inst.code.hex(), "; ".join(t for t, _ in d))
                     else:
                         verdict = "mismatch: ppci prints `%s`, bytes %s decode as `%s` (%s)" % (inst.text, inst.code.hex(), "; ".join(t for t, _ in d), llvmref.describe_diff(diff))
             _DECODE_CACHE[(target, inst.code, inst.text)] = verdict
@@ -1173,8 +1198,17 @@ def classify_failure(kind, cid, reg, out, rm, target=TARGET):
     """Id of the known finding a single failure line belongs to (narrow: class set AND the register
     the defect's model predicts), else None."""
     base = cid.split("#")[0]
+    if target == "riscv:rvc":
+        # KF6: compressed two-address forms (rd = rd op ...) declare rd write-only; the model of the
+        # defect: the output that depends on an undeclared register is that register itself
+        if kind == "READ" and base in ("CAddi", "cand_ins", "cor_ins", "csub_ins", "cxor_ins") and out == reg:
+            return "C07-KF6"
+        return None
     if target != TARGET:
         return None
+    # KF7: store forms movss/movsd r/m, xmm with a register-mode destination do not define it
+    if kind == "WRITE" and base in ("Movss2", "Movsd2") and rm is not None and rm == reg + "@0":
+        return "C07-KF7"
     # KF5: shifts by cl read the count register, no operand and no RegisterUseDef says so (visible
     # where an output is declared at all, i.e. through an adjacent def; the destination itself is KF1)
     if kind == "READ" and reg == "rcx" and base in SHIFT_BY_CL:
@@ -1243,7 +1277,158 @@ def _split_failures(failures):
 _HARVEST_CACHE = {}
 
 
+def place_absolute(target, cid, args):
+    """x86-64: operands that address memory without a register (absolute disp32, rip-relative) get
+    an address inside the scratch arena; everything else is returned unchanged."""
+    if is_rv(target) or not any(isinstance(a, list) and a and a[0] == "c" and a[1] in ("RmAbs", "RmRip") for a in args):
+        return args
+    out = []
+    for a in args:
+        if isinstance(a, list) and a and a[0] == "c" and a[1] == "RmAbs":
+            out.append(["c", "RmAbs", [A + 1024 + ((a[2][0] & 0xFFF) & ~7)]])
+        elif isinstance(a, list) and a and a[0] == "c" and a[1] == "RmRip":
+            out.append(["c", "RmRip", [0]])
+        else:
+            out.append(a)
+    if any(isinstance(a, list) and a and a[0] == "c" and a[1] == "RmRip" for a in out):
+        try:
+            n = len(build_instruction({"target": target, "cls": cid, "args": out}).encode())
+        except Exception:
+            return out
+        k = [a[2][0] for a in args if isinstance(a, list) and a and a[0] == "c" and a[1] == "RmRip"][0]
+        disp = A + 1024 + ((k & 0xFFF) & ~7) - (x86step.CODE_BASE + n)
+        out = [["c", "RmRip", [disp]] if isinstance(a, list) and a and a[0] == "c" and a[1] == "RmRip" else a for a in out]
+    return out
+
+
+_ISA_UNITS = {}
+ISA_SEEDS = (16, 4, 8, 1, 2, 32, 3, 64, 256, 5, 0)  # 16 suits scaled offsets (c.lw, c.addi16sp); 0 last: reserved / hint encoding for several classes
+
+
+def _distinct_registers(target, cls, args, counter=None):
+    """The default operands with every register leaf replaced by a different allocatable register
+    of its class (`mov bx, bx` would hide a missing write; x8-x15 suit the compressed forms)."""
+    alloc = _allocatable(target)
+    counter = counter if counter is not None else [0]
+    out = []
+    for fa, a in zip(cls.syntax.formal_arguments, args):
+        k = isagen.kind_of(fa._cls)
+        if k == "reg":
+            ids = list(isagen.reg_ids(fa._cls)[0])
+            pool = [i for i in alloc.get(fa._cls.__name__, ids) if i in ids and i not in ("rsp", "rbp", "x2", "x8")] or ids
+            counter[0] += 1
+            out.append(["r", pool[counter[0] % len(pool)]])
+        elif k == "ctor":
+            sub = [o for o in isagen.ctor_options(fa._cls) if o.__name__ == a[1]][0]
+            out.append(["c", a[1], _distinct_registers(target, sub, a[2], counter)])
+        else:
+            out.append(a)
+    return out
+
+
+def same_register_args(target, cid, args):
+    """The operands with every register leaf of one class set to the same register (two-address
+    forms such as `add rax, rax`; the compressed RISC-V classes that encode only one of rd/rs1)."""
+    cls = class_of(target, cid)
+    first = {}
+
+    def walk(c, aa):
+        out = []
+        for fa, a in zip(c.syntax.formal_arguments, aa):
+            k = isagen.kind_of(fa._cls)
+            if k == "reg":
+                first.setdefault(fa._cls, a[1])
+                out.append(["r", first[fa._cls]])
+            elif k == "ctor":
+                sub = [o for o in isagen.ctor_options(fa._cls) if o.__name__ == a[1]][0]
+                out.append(["c", a[1], walk(sub, a[2])])
+            else:
+                out.append(a)
+        return out
+
+    new = walk(cls, args)
+    return None if new == args else new
+
+
+def isa_units(target, stats=None):
+    """Every instruction class of the target's isa that vf/isagen.py can instantiate and that is
+    not in an excluded category, once per operand form (every constructor alternative of its
+    constructor-typed operand: register mode and every memory mode), as stand-alone units WITHOUT
+    RegisterUseDef context: the class is judged by what it declares itself.  Classes / forms that
+    cannot be judged alone are counted needs_context:<reason> in `stats.hist`."""
+    if target in _ISA_UNITS:
+        units, notes = _ISA_UNITS[target]
+    else:
+        units, notes = [], []
+        seen = set()
+        for cid, cls in isagen.instruction_classes(target):
+            why = excluded_reason(cls, target, None)
+            if why is not None:
+                notes.append("isa excluded:" + why)
+                continue
+            if cid == "Rep" and not is_rv(target):
+                notes.append("needs_context:rep prefix alone is not an instruction (judged as rep movsb)")
+                continue
+            if not isagen.supported(target, cid):
+                notes.append("needs_context:operand kind the generator does not model (%s)" % cid)
+                continue
+            nopts = 1
+            for fa in cls.syntax.formal_arguments:
+                if isagen.kind_of(fa._cls) == "ctor":
+                    nopts = max(nopts, len([o for o in isagen.ctor_options(fa._cls) if o.syntax]))
+            got = False
+            for choice in range(nopts):
+                base = None
+                for v in ISA_SEEDS:
+                    try:
+                        args = place_absolute(target, cid, _distinct_registers(target, cls, isagen._default_args(target, cls, v, choice)))
+                        ins = build_instruction({"target": target, "cls": cid, "args": args})
+                        code = isagen.emit_direct_parts(ins)[0]
+                        str(ins)
+                    except Exception:
+                        continue
+                    if code:
+                        base = (args, code)
+                        break
+                if base is None:
+                    continue
+                args, code = base
+                if "RmAbsLabel" in _shape(args):
+                    notes.append("needs_context:[label] operand needs a linked symbol")
+                    continue
+                if is_rv(target):
+                    d = rvstep.decode_code(code)
+                    if d is not None and d[0] in rvstep.CONTROL_OPS:
+                        notes.append("isa excluded:control transfer")
+                        got = True
+                        continue
+                u = Unit(cid, args, [], [], [], "<isa>", code, target)
+                u.key = "isa:" + u.key
+                if u.key in seen:
+                    continue
+                seen.add(u.key)
+                units.append(u)
+                got = True
+            if not got:
+                notes.append("needs_context:no accepted default operands (%s)" % cid)
+        if not is_rv(target):
+            try:
+                rm = _RepMovsb()
+                u = Unit(REP_MOVSB, [], [], [], [], "<isa>", rm.encode(), target)
+                u.key = "isa:" + u.key
+                units.append(u)
+            except Exception:
+                pass
+        _ISA_UNITS[target] = (units, notes)
+    if stats is not None:
+        for n in notes:
+            stats.hist[n] += 1
+    return units
+
+
 def units_of(src, stats=None):
+    if src["kind"] == "isa":
+        return isa_units(src.get("target", TARGET), stats)
     h = jhash(src)
     if h not in _HARVEST_CACHE:
         if len(_HARVEST_CACHE) > 64:
@@ -1506,14 +1691,19 @@ def variant_strategy(unit):
         return sel
 
     def int_filter(path):
+        if any(isinstance(p, str) and p in ("RmAbs", "RmRip") for p in path):
+            return None
         if any(isinstance(p, str) and p.startswith("RmMem") for p in path):
             return lambda v: -(1 << 31) <= v < (1 << 31)
         return None
 
     try:
-        return isagen.args_strategy(target, unit.cid, exclude_ctors=frozenset(allnames - keep), canonical=True, reg_filter=reg_filter, int_filter=int_filter)
+        strat = isagen.args_strategy(target, unit.cid, exclude_ctors=frozenset(allnames - keep), canonical=True, reg_filter=reg_filter, int_filter=int_filter)
     except isagen.BuildError:
         return st.just(None)
+    if "RmAbs" in keep or "RmRip" in keep:
+        return strat.map(lambda a: place_absolute(target, unit.cid, a))
+    return strat
 
 
 def _record(stats, case, inst_infos, unknown, known, info):
@@ -1540,7 +1730,10 @@ def _record(stats, case, inst_infos, unknown, known, info):
             classes.append("with adjacent RegisterUseDef")
         if verdict != "ok":
             classes.append("encoding guard: " + verdict.split(":")[0])
-        classes.append("variant" if case.get("args") is not None else "as harvested")
+        if u.key.startswith("isa:"):
+            classes.append("isa sweep: stand-alone class" + ("" if case.get("args") is None else " (other operands)"))
+        else:
+            classes.append("variant" if case.get("args") is not None else "as harvested")
         stats.case(u.key, nt, sample, classes=classes)
     for k, v in info["counters"].items():
         stats.hist["exec:" + k] += v
@@ -1551,7 +1744,7 @@ def _record(stats, case, inst_infos, unknown, known, info):
 def _worker(arg):
     """One shard: compile its sources (fixed idioms + Hypothesis programs), test every new unit as
     harvested, then test re-instantiated variants of the unit kinds it found."""
-    seed, sources, nprog, nvar, nstates, targets = arg
+    seed, sources, nprog, nvar, nstates, targets, sweep = arg
     from hypothesis import strategies as st
 
     stats = Stats()
@@ -1676,6 +1869,73 @@ def _worker(arg):
             if vprop.last is not None and len(fails) < 4:
                 fails.append(vprop.last)
     stats.hist["unit kinds found by a shard"] += len(keys)
+
+    # ---- isa sweep: every class x operand form as a stand-alone unit (no RegisterUseDef context)
+    if sweep:
+        stargets, w, nw, kvar, nex = sweep
+        sunits = []
+        for t in stargets:
+            sunits.extend(isa_units(t, stats if w == 0 else None))
+        sunits = sunits[w::nw]
+
+        def sweep_eval(pairs):
+            """pairs: [(unit, args | None, seed)] -> first unknown failure as (case, msg) | None"""
+            insts = []
+            for u, a, sd in pairs:
+                try:
+                    insts.append((u, a, sd, Instance(u, a)))
+                except Discard as d:
+                    stats.discard(d.reason)
+            counters = {}
+            first = None
+            res = evaluate_instances([(i, sd) for _, _, sd, i in insts], nstates, counters)
+            for (u, a, sd, _), (inst, v, fs) in zip(insts, res):
+                if isinstance(fs, Discard):
+                    stats.discard(fs.reason)
+                    continue
+                judged.add((u.target, u.cid))
+                unknown, known = _split_failures(fs)
+                case = {"src": {"kind": "isa", "target": u.target}, "select": {"key": u.key, "occ": 0}, "args": a, "seed": sd, "nstates": nstates}
+                _record(stats, case, [(inst, v, len(fs))], unknown, known, {"counters": {}})
+                if unknown and first is None:
+                    first = (case, "\n".join(f.line() for f in unknown[:8]))
+            for k_, v_ in counters.items():
+                stats.hist["exec:" + k_] += v_
+            return first
+
+        judged = set()
+        if sunits:
+            fixed = [(u, None, subseed(seed, "isa", u.key)) for u in sunits]
+            for u in sunits:
+                if u.args:
+                    same = same_register_args(u.target, u.cid, u.args)
+                    if same is not None:
+                        fixed.append((u, same, subseed(seed, "isa-same", u.key)))
+            f = sweep_eval(fixed)
+            if f is not None and len(fails) < 4:
+                fails.append(f)
+        if sunits and kvar > 0 and nex > 0:
+            per_unit = [st.lists(st.tuples(variant_strategy(u), st.integers(0, 2**32 - 1)), min_size=kvar, max_size=kvar) for u in sunits]
+
+            def sprop(batch):
+                pairs = []
+                for u, l in zip(sunits, batch):
+                    for a, sd in l:
+                        if a is not None:
+                            pairs.append((u, a, sd))
+                f = sweep_eval(pairs)
+                sprop.last = f
+                return None if f is None else f[1]
+
+            sprop.last = None
+            for batch, msg in hyp_search(st.tuples(*per_unit), sprop, nex, seed ^ 0x15A15A, stats, classify=None, shrink_budget_s=40):
+                sprop(batch)
+                if sprop.last is not None and len(fails) < 4:
+                    fails.append(sprop.last)
+        for u in sunits:
+            stats.hist["isa forms in the sweep"] += 1
+            if (u.target, u.cid) not in judged:
+                stats.hist["isa form not judged (every instance discarded): %s %s" % (u.target, u.cid)] += 1
     return stats, fails
 
 
@@ -1714,7 +1974,12 @@ def run(ctx):
         shards = _split_sources(idiom_sources(), nw)
     # quick: RISC-V is covered through the fixed idioms and their variants only
     ptargets = (TARGET,) if ctx.quick else tuple(targets)
-    ctx.pmap(_worker, [(subseed(ctx.seed, PID, w), shards[w], nprog, nvar, nstates, ptargets) for w in range(nw)])
+    # isa sweep: quick = default operands + 2 drawn operand tuples per (class, operand form);
+    # thorough = 12 tuples x 6 rounds
+    kvar, nex = ctx.scale((2, 1), (12, 6))
+    ctx.pmap(_worker, [(subseed(ctx.seed, PID, w), shards[w], nprog, nvar, nstates, ptargets, (tuple(targets), w, nw, kvar, nex)) for w in range(nw)])
+    ctx.extra["needs_context"] = {k[len("needs_context:") :]: v for k, v in ctx.stats.hist.items() if k.startswith("needs_context:")}
+    ctx.extra["isa_sweep"] = "every class of the isa that vf/isagen.py instantiates, outside the excluded categories, once per operand form (register mode and every memory mode), judged stand-alone by its own annotations"
     ctx.extra["targets_covered"] = ["x86_64 (native single-stepping on the host CPU)"] + (
         ["riscv, riscv:rvc (RV32IM+C integer instructions in the emulator vf/rv32.py, which passed its own self-check)"] if rv_ok else []
     )
